@@ -14,8 +14,8 @@ CODES = {"ASCIIHexDecode": 1, "ASCII85Decode": 2, "LZWDecode": 3, "RunLengthDeco
 
 
 def extract(g, X):
-    types = X.strip_comments(X.read("pdf/src/object/types.rs"))
-    filers = X.strip_comments(X.read("pdf/src/file.rs"))
+    types = X.source("pdf/src/object/types.rs")
+    filers = X.source("pdf/src/file.rs")
 
     def rpos():
         b = X.fn_body(types, "raw_image_data")
